@@ -47,6 +47,7 @@ def main():
         jobs = [lambda: common.cargo_build_bin(ctx, "hist", release=True),
                 lambda: common.cargo_build_bin(ctx, "hist", features=("std", "serde", "stable_deref_trait", "unsize", "arc-swap", "zst")),
                 lambda: common.cargo_build_bin(ctx, "ovf", release=True),
+                lambda: common.cargo_build_bin(ctx, "thinzst", release=True),
                 lambda: common.cargo_build_bin(ctx, "ovf", features=("serde", "stable_deref_trait", "unsize", "arc-swap")),
                 lambda: common.cargo_build_bin(ctx, "ovf", features=("serde", "stable_deref_trait", "unsize", "arc-swap"), release=True),
                 lambda: layout_corr.build_variants(ctx, ["dbg", "rel-o0"])]
@@ -60,6 +61,7 @@ def main():
     try:
         from vlib import miri
         step("miri sysroot + litmus build", lambda: miri.run_suite(ctx, ["clone_read_drop_2t"], [1]))
+        step("native litmus build", lambda: miri.run_native(ctx, ["convert_vs_count_observer"], rounds=10))
     except Exception as e:
         sys.stderr.write("[setup] miri warm-up skipped: %s\n" % e)
     sys.stderr.write("[setup] ok\n")
